@@ -74,6 +74,7 @@ func init() {
 		"time.Since":           inSinceUntil,
 		"time.Until":           inSinceUntil,
 		"time.NewTicker":       inNewTicker,
+		"(time.Time).Sub":      inTimeSub,
 		"(*time.Ticker).Stop":  inNop,
 		"(*time.Ticker).Reset": inNop,
 		"time.Sleep":           inNop,
@@ -550,8 +551,29 @@ func inSinceUntil(s *State, fr *Frame, fn *ssa.Function, a []Value, d ssa.Value)
 	} else {
 		args = []Value{a[0], now}
 	}
-	s.pushFrame(sub, args, nil, d)
-	return nil, true
+	return inTimeSub(s, fr, sub, args, d)
+}
+
+// inTimeSub: with the small clock every instant lies within a few minutes of the base, so
+// t.Sub(u) = (t.sec-u.sec)*1e9 + (t.nsec-u.nsec) exactly (no saturation); this avoids the division
+// by 1e9 inside the real overflow check, which no solver here decides. Otherwise the real code runs.
+func inTimeSub(s *State, fr *Frame, fn *ssa.Function, a []Value, d ssa.Value) (Value, bool) {
+	if s.cfg == nil || !s.cfg.ClockSmall {
+		s.pushFrame(fn, a, nil, d)
+		return nil, true
+	}
+	t, u := a[0].(Struct), a[1].(Struct)
+	tn, ts := t.F[0].(*Term), t.F[1].(*Term)
+	un, us := u.F[0].(*Term), u.F[1].(*Term)
+	// zero times (sec = 0) are far from the base: keep the real code for those
+	if (ts.Op == OConst && ts.Val == 0) || (us.Op == OConst && us.Val == 0) {
+		s.pushFrame(fn, a, nil, d)
+		return nil, true
+	}
+	mask30 := Const(64, (1<<30)-1)
+	ds := Mul(Sub(ts, us), Const(64, 1000000000))
+	dn := Sub(BAnd(tn, mask30), BAnd(un, mask30))
+	return Add(ds, dn), false
 }
 
 func inNewTicker(s *State, fr *Frame, fn *ssa.Function, a []Value, d ssa.Value) (Value, bool) {
